@@ -88,6 +88,27 @@ theorem rtPredR_of_rt (v r : VLA) (o : RtObs) :
       | none => simp
       | some d => cases d <;> simp_all [normD]
 
+/-- the recorded defect `c19_bitrate_2p56` masked on both sides: bitrates of 2^56 kbps or more (which
+    `ReadLeb128` decodes wrongly) are replaced by 0 -/
+def maskBig (v : VLA) : VLA :=
+  { v with layers := v.layers.map fun l =>
+      { l with rates := l.rates.map fun k => if k ≥ 72057594037927936 then 0 else k } }
+
+/-- inside the region the predicate fails for the RECORDED reason: the encoding is the specified one,
+    all of it is consumed, and the decoded allocation differs from the original only in the bitrates of
+    2^56 kbps or more -/
+def rtExplained (v : VLA) (o : RtObs) : Bool :=
+  o.enc == .ok (encode v) &&
+  match o.dec with
+  | some (.ok n w) =>
+    n == (encode v).length &&
+    (maskBig w.norm).layers.map (fun l => (l.stream, l.spatial, l.rates.length, l.width, l.height, l.fps)) ==
+      (maskBig v.norm).layers.map (fun l => (l.stream, l.spatial, l.rates.length, l.width, l.height, l.fps)) &&
+    w.rid == v.rid && w.count == v.count && w.hasRes == v.hasRes &&
+    (w.norm.layers.zip v.norm.layers).all (fun (a, b) =>
+      (a.rates.zip b.rates).all (fun (x, y) => x == y || y ≥ 72057594037927936))
+  | _ => false
+
 /-- `c19.rt <vla> <receiver> => <MRes> <opt DRes>` -/
 def rt : Handler :=
   mkHandler (do let v ← rdVLA; let r ← rdVLA; pure (v, r)) rdRtObs
@@ -96,6 +117,7 @@ def rt : Handler :=
     -- C19 quantifies over the valid allocations AND over the invalid ones Marshal must refuse
     (fun (v, _) => decide v.WF || Rtp.Pred.C19.mustReject v)
     (fun (v, _) _ => if bigRate v then some "c19_bitrate_2p56" else none)
+    (fun (v, _) o => rtExplained v (normObs o))
 
 /-- `c19.dec <receiver> <bytes> => <DRes>` -/
 def dec : Handler :=
